@@ -420,12 +420,24 @@ def c15(full):
         calls = openql_of_label(ops[i]["l"])
         if calls and calls[0][0] == "wait":
             d = int(tl[i][3]) if tl is not None and i < len(tl) else None
+            if d is not None and oq.get("wait_unit") == "cycles":
+                d = -(-d // 20)     # real OpenQL reports waits in 20 ns cycles ...
+                if d == 0:
+                    return [["barrier", calls[0][1]]]   # ... and writes a zero wait as a barrier
             return [["wait", calls[0][1], d]]
         return calls
 
     want = _walk_indices(ops, comps, leaf_i)
+    if oq.get("wait_unit") == "cycles":
+        # the cQASM writer of real OpenQL spells some gate names with underscores (prepz -> prep_z)
+        def norm(seq):
+            return [[c[0], c[1].replace("_", ""), c[2]] if c[0] == "gate" else c for c in seq]
+        got, want = norm(got), norm(want)
     if got != want:
-        diag = "D5a" if got == _walk_nested_first(ops, comps, leaf_i) else None
+        nf = _walk_nested_first(ops, comps, leaf_i)
+        if oq.get("wait_unit") == "cycles":
+            nf = norm(nf)
+        diag = "D5a" if got == nf else None
         out.append(F(["C15"], "openql-not-image-of-listing", got=got[:40], want=want[:40], n_got=len(got), n_want=len(want), diag=diag))
     return out
 
